@@ -195,6 +195,14 @@ for line in sys.stdin:
         if case['kind'] == 'embed':
             res = embed_case(case); kw = None; gc.collect()
             print('RESULT %d %s' % (case['id'], 'ok' if res == 'ok' else 'exc ' + res)); sys.stdout.flush(); continue
+        if case['kind'] == 'anycall':
+            from cvxopt import blas
+            kw = {k: val(v) for k, v in case['args'].items()}
+            getattr({'blas': blas, 'lapack': lapack, 'base': base}[case['module']], case['routine'])(**kw)
+            for v in kw.values():
+                if hasattr(v, 'size'): list(matrix(v))
+            kw = None; gc.collect()
+            print('RESULT %d ok' % case['id']); sys.stdout.flush(); continue
         if case['kind'] == 'ctor':
             res = ctor_case(case); gc.collect()
             print('RESULT %d %s' % (case['id'], 'ok' if res == 'ok' else 'exc ' + res)); sys.stdout.flush(); continue
